@@ -12,6 +12,7 @@ if cargo test --offline -q --test seeded_demo $FF >/tmp/confirm_$$.log 2>&1; the
 rm -f tests/seeded_demo.rs
 git apply $D/patch.diff || { echo "patch does not apply"; exit 2; }
 if cargo test --workspace --no-fail-fast --offline -q >/tmp/confirm_$$.log 2>&1; then S=pass; else S=fail; fi
+if [ -n "$FEAT" ]; then if cargo test --no-fail-fast --offline -q $FF >/tmp/confirm_$$.log 2>&1; then S="$S+feature-suite-pass"; else S="$S+feature-suite-fail"; fi; fi
 cp $D/demo.rs tests/seeded_demo.rs
 if cargo test --offline -q --test seeded_demo $FF >/tmp/confirm_$$.log 2>&1; then B=pass; else B=fail; fi
 rm -f tests/seeded_demo.rs
